@@ -737,6 +737,8 @@ pub fn mutations(bytes: &[u8], exp: &Expected) -> Vec<(String, Vec<u8>)> {
 	for c in cuts {
 		out.push((format!("trunc@{}", c), bytes[..c].to_vec()));
 	}
+	// a declared unknown event with the largest payload a table entry can declare (65535 bytes), a few times
+	out.push(("unknown-event-65535".to_string(), with_unknown_events(bytes, exp, 3)));
 	// frame id / port / follower flag of one event
 	for code in [0x37u8, 0x38, 0x3A, 0x3B, 0x3C] {
 		if let Some(i) = pick(code) {
@@ -848,9 +850,11 @@ pub fn c06_case(spec: &Spec, p: &Progress, only: Option<(&str, &str)>, t0: Insta
 
 // ---------------------------------------------------------------------------------------------- c08
 
-/// The file with `n` unknown events (code 0x40, 5-byte payload, declared in the payload table) inserted at event boundaries
-/// after Game Start and not after the first Game End.
+/// The file with `n` unknown events (code 0x40, declared in the payload table) inserted at event boundaries after Game Start
+/// and not after the first Game End.  The declared payload size rotates with the case: 5, 1, 700 and the largest a table
+/// entry can declare, 65535.
 fn with_unknown_events(bytes: &[u8], exp: &Expected, seed: u64) -> Vec<u8> {
+	let usize_ = [5u16, 1, 700, 0xFFFF][(seed % 4) as usize];
 	let mut rng = Rng::new(seed ^ 0xC08);
 	let ev = &exp.events;
 	// boundary k = "before event k"; ev.len() = at the end of the raw element
@@ -862,14 +866,14 @@ fn with_unknown_events(bytes: &[u8], exp: &Expected, seed: u64) -> Vec<u8> {
 	let mut out = bytes[..15].to_vec();
 	out.push(0x35);
 	out.push((3 * (exp.table.len() + 1) + 1) as u8);
-	for (c, s) in exp.table.iter().chain([(0x40u8, 5u16)].iter()) {
+	for (c, s) in exp.table.iter().chain([(0x40u8, usize_)].iter()) {
 		out.push(*c);
 		out.extend_from_slice(&s.to_be_bytes());
 	}
 	for k in 1..=ev.len() {
 		for _ in at.iter().filter(|a| **a == k) {
 			out.push(0x40);
-			out.extend(rng.bytes(5));
+			out.extend(rng.bytes(usize_ as usize));
 		}
 		if k < ev.len() {
 			out.extend_from_slice(&bytes[ev[k].off..ev[k].off + ev[k].len]);
@@ -1070,7 +1074,13 @@ pub fn search(name: &str, cases: &[Spec], check: Check, hang_label: Option<&(dyn
 						best.fetch_min(i, Ordering::SeqCst);
 						found.lock().unwrap().push((i, extra, msg));
 					}
-					Ok(Panicked(m)) => panics.lock().unwrap().push((i, m)),
+					// the inputs of these searches are well-formed by construction (the corrupting oracles c06 / c07 classify
+					// panics themselves): a reader that panics on one delivers no game, so the property under test fails on it too
+					Ok(Panicked(m)) => {
+						best.fetch_min(i, Ordering::SeqCst);
+						panics.lock().unwrap().push((i, m.clone()));
+						found.lock().unwrap().push((i, String::new(), format!("peppi panicked on this well-formed input, so the property has no value to hold for: {}", m)));
+					}
 					Err(m) => panics.lock().unwrap().push((i, format!("(outside peppi) {}", m))),
 				}
 			});
@@ -1098,7 +1108,7 @@ pub fn search(name: &str, cases: &[Spec], check: Check, hang_label: Option<&(dyn
 	let mut panics = panics.into_inner().unwrap();
 	panics.sort();
 	for (i, m) in panics.iter().take(5) {
-		println!("NOTE {}-search: panic on {} (counts against the no-panic property only): {}", name, cases[*i].case_id(), m);
+		println!("NOTE {}-search: panic on {}: {}", name, cases[*i].case_id(), m);
 	}
 	let mut found = found.into_inner().unwrap();
 	found.sort();
@@ -1144,12 +1154,16 @@ pub fn replay(name: &str, spec: &Spec, check: Check, hang_label: Option<&(dyn Fn
 				println!("{} VIOLATED: {} [{}]", name, msg, spec.case_id());
 				1
 			}
-			Ok(Panicked(m)) | Err(m) => {
+			Ok(Panicked(m)) => {
+				println!("{} VIOLATED: peppi panicked on this well-formed input: {} [{}]", name, m, spec.case_id());
+				1
+			}
+			Err(m) => {
 				if name == "c06" {
 					println!("{} VIOLATED: panic: {} [{}]", name, m, spec.case_id());
 					1
 				} else {
-					println!("{} not evaluated: peppi panicked (counts against the no-panic property c06 only): {} [{}]", name, m, spec.case_id());
+					println!("{} not evaluated: panic outside peppi: {} [{}]", name, m, spec.case_id());
 					0
 				}
 			}
